@@ -66,6 +66,9 @@ def requests ():
   a(("port-mod-no-packet-in-3", lambda x: W.port_mod(x, 3, MAC1(1, 3), W.OFPPC_NO_PACKET_IN, W.OFPPC_NO_PACKET_IN), ("none",)))
   a(("packet-out-controller", lambda x: W.packet_out(x, W.a_output(W.OFPP_CONTROLLER), FRAME, in_port=1), ("none",)))
   a(("packet-out-bad-buffer", lambda x: W.packet_out(x, W.a_output(2), b"", buffer_id=77, in_port=1), ("error", W.OFPET_BAD_REQUEST, W.OFPBRC_BUFFER_UNKNOWN)))
+  # names the buffer id of the most recent packet-in (1 if none was seen): fine once, "already used" afterwards, "unknown"
+  # if the switch never handed that id out
+  a(("packet-out-last-buffer", lambda x, b=1: W.packet_out(x, W.a_output(2), b"", buffer_id=b, in_port=3), ("buffer",)))
   a(("packet-out-bad-action", lambda x: W.packet_out(x, W.a_raw(0x55), FRAME, in_port=1), ("error", W.OFPET_BAD_ACTION, W.OFPBAC_BAD_TYPE)))
   a(("vendor", lambda x: W.vendor(x, 0x1234, b"\0\0\0\0"), ("error", W.OFPET_BAD_REQUEST, W.OFPBRC_BAD_VENDOR)))
   a(("hello", lambda x: W.hello(x), ("none",)))
@@ -82,6 +85,7 @@ class Model (object):
     self.out2 = False           # does flow "in1" currently output to port 2?
     self.tx = {1: 0, 2: 0, 3: 0, 4: 0}
     self.lookups = 0; self.matched = 0          # table counters (packets submitted to the table)
+    self.issued = set(); self.used = set(); self.last_buf = None      # buffer ids seen in packet-ins / consumed
   def apply (self, name):
     if name == "set-config-64": self.miss_send_len, self.flags = 64, 0
     elif name == "set-config-0": self.miss_send_len, self.flags = 0, 0
@@ -101,14 +105,15 @@ class Model (object):
       self.lookups += 1
 
 
-def check_history (names, reqs, rep, stack_factory, batch=False):
+def check_history (names, reqs, rep, stack_factory, batch=False, raws=None):
   """Run one history; returns list of (key, what)."""
   st = stack_factory()
   model = Model()
   bad = []
   outputs = []
   xids = [0x51000000 + i for i in range(len(names))]
-  raws = [reqs[n][0](x) for n, x in zip(names, xids)]
+  if raws is None: raws = [reqs[n][0](x) for n, x in zip(names, xids)]
+  else: raws = list(raws)
   if batch:
     try:
       st.feed(b"".join(raws))
@@ -119,6 +124,13 @@ def check_history (names, reqs, rep, stack_factory, batch=False):
   total = b""
   for i, (n, x, raw) in enumerate(zip(names, xids, raws)):
     exp = reqs[n][1]
+    if exp[0] == "buffer":
+      b_id = model.last_buf or 1
+      raw = raws[i] = reqs[n][0](x, b_id)
+      if b_id not in model.issued: exp = ("error", W.OFPET_BAD_REQUEST, W.OFPBRC_BUFFER_UNKNOWN)
+      elif b_id in model.used: exp = ("error", W.OFPET_BAD_REQUEST, W.OFPBRC_BUFFER_EMPTY)
+      else:
+        exp = ("none",); model.used.add(b_id); model.tx[2] += 1
     try:
       st.feed(raw)
     except Exception as e:
@@ -131,6 +143,9 @@ def check_history (names, reqs, rep, stack_factory, batch=False):
       bad.append(("%s:%s:garbled-output" % (PID, n), "switch wrote bytes that do not frame as OpenFlow messages")); break
     ds = [W.decode(m) for m in msgs]
     replies = [d for d in ds if d["type"] not in W.ASYNC_TYPES]
+    for d in ds:
+      if d["type"] == W.PACKET_IN and d.get("buffer_id", W.NO_BUFFER) != W.NO_BUFFER:
+        model.issued.add(d["buffer_id"]); model.used.discard(d["buffer_id"]); model.last_buf = d["buffer_id"]
     for d in ds:
       if d["type"] in W.ASYNC_TYPES and d["xid"] == x and d["type"] != W.HELLO:
         pass
@@ -176,6 +191,7 @@ def check_history (names, reqs, rep, stack_factory, batch=False):
         if not (r["data"][:8] == raw[:8] and len(r["data"]) >= len(want)):
           bad.append(("%s:%s:error-data" % (PID, n), "error data is not (at least the first 64 bytes of) the failed request"))
     model.apply(n)
+  check_history.last_raws = raws
   return bad, total
 
 
@@ -242,7 +258,7 @@ def _worker (histories):
     rep.evaluations += 1
     if not bad and len(names) > 1:
       # differential: the same bytes in one read must give the same reply stream
-      bad2, stream2 = check_history(names, reqs, rep, _stack, batch=True)
+      bad2, stream2 = check_history(names, reqs, rep, _stack, batch=True, raws=check_history.last_raws)
       rep.evaluations += 1
       if bad2: bad = bad2
       elif stream2 != stream:
@@ -289,6 +305,6 @@ def replay (cfg, data):
   rep = Report(PID, "model_checking")
   bad, stream = check_history(tuple(data["history"]), reqs, rep, _stack)
   if not bad:
-    bad, s2 = check_history(tuple(data["history"]), reqs, rep, _stack, batch=True)
+    bad, s2 = check_history(tuple(data["history"]), reqs, rep, _stack, batch=True, raws=check_history.last_raws)
     if not bad and s2 != stream: bad = [("segmentation", "replies differ in one read")]
   return bool(bad), "history: %r\n%s" % (data["history"], "\n".join("%s: %s" % b for b in bad))
